@@ -998,4 +998,93 @@ theorem bucketIndicesNew_card (c : Cfg) (hk : c.k < two32) (hmc : 0 < c.maxChain
 
 end IbltLemmas
 
+section SmallModels
+
+theorem sl_validateSubjects_no_panic (c : StatusList.Cfg) (hg : c.singleSubjectGuard = true) (subs : List StatusList.Subject) :
+    ∀ s, StatusList.validateSubjects c subs ≠ .panic s := by
+  intro s
+  unfold StatusList.validateSubjects
+  cases subs with
+  | nil => simp [hg]
+  | cons a t =>
+    simp only [hg, Bool.true_and]
+    repeat' split
+    all_goals simp
+
+theorem sl_validate_no_panic (c : StatusList.Cfg) (hg : c.singleSubjectGuard = true) (cr : StatusList.Cred) :
+    ∀ s, StatusList.validate c cr ≠ .panic s := by
+  intro s
+  unfold StatusList.validate
+  repeat' split
+  all_goals first | exact sl_validateSubjects_no_panic c hg _ s | simp
+
+theorem sl_expiry_no_panic (c : StatusList.Cfg) (h2 : c.expirationNilGuard = true) (e : Option Bool) (r : StatusList.Record) :
+    ∀ s, StatusList.expiry c e r ≠ .panic s := by
+  intro s; unfold StatusList.expiry; cases e <;> simp [h2]
+
+theorem sl_update_no_panic (c : StatusList.Cfg) (h1 : c.singleSubjectGuard = true) (h2 : c.expirationNilGuard = true)
+    (url : String) (d : Option StatusList.Cred) (ex : String → Option (List Nat)) (sig : Bool) :
+    ∀ s, StatusList.update c url d ex sig ≠ .panic s := by
+  intro s
+  unfold StatusList.update
+  repeat' split
+  all_goals first
+    | exact sl_expiry_no_panic c h2 _ _ s
+    | (exact absurd ‹_› (sl_validate_no_panic c h1 _ _))
+    | simp
+
+theorem sl_verifyEntries_no_panic (l : List StatusList.Entry) : ∀ s, StatusList.verifyEntries l ≠ .panic s := by
+  intro s
+  induction l with
+  | nil => simp [StatusList.verifyEntries]
+  | cons e rest ih =>
+    unfold StatusList.verifyEntries
+    repeat' split
+    all_goals first | exact ih | (exact absurd ‹_› (bit_no_panic _ _ _)) | simp
+
+/-- update returns a record only after download, validate, expand, the signature check and the subject-id check all
+    succeeded: a rejected credential produces nothing to store -/
+theorem sl_update_ok_checked (c : StatusList.Cfg) (url : String) (d : Option StatusList.Cred) (ex : String → Option (List Nat)) (sig : Bool) (r : StatusList.Record)
+    (h : StatusList.update c url d ex sig = .ok r) :
+    ∃ cr subj bits, d = some cr ∧ StatusList.validate c cr = .ok subj ∧ ex subj.encodedList = some bits ∧ sig = true ∧ url = subj.id := by
+  unfold StatusList.update at h
+  split at h
+  · simp at h
+  · rename_i cr
+    split at h
+    · simp at h
+    · simp at h
+    · rename_i subj hv
+      split at h
+      · simp at h
+      · rename_i bits hex
+        split at h
+        · simp at h
+        · rename_i hsig
+          split at h
+          · simp at h
+          · rename_i hurl
+            exact ⟨cr, subj, bits, rfl, hv, hex, by simpa using hsig, by simpa using hurl⟩
+
+theorem didkey_codec_no_panic (i : DidKey.In) (kt : Nat) : ∀ s, DidKey.codecCheck i kt ≠ .panic s := by
+  intro s
+  unfold DidKey.codecCheck
+  simp only
+  repeat' split
+  all_goals simp
+
+theorem didkey_decode_no_panic (i : DidKey.In) : ∀ s, DidKey.decode i ≠ .panic s := by
+  intro s
+  unfold DidKey.decode
+  repeat' split
+  all_goals first | exact didkey_codec_no_panic i _ s | simp
+
+theorem didkey_no_panic (c : DidKey.Cfg) (hg : c.emptyGuard = true) (i : DidKey.In) : ∀ s, DidKey.resolve c i ≠ .panic s := by
+  intro s
+  unfold DidKey.resolve
+  repeat' split
+  all_goals first | exact didkey_decode_no_panic i s | (exact absurd hg ‹_›) | simp
+
+end SmallModels
+
 end Nuts.C19.Lemmas
